@@ -1,6 +1,7 @@
 import H2.Proofs.ClientInter
 import H2.Proofs.ClientWFail
 import H2.Client.Locks
+import H2.Proofs.ClientQueue
 /-!
 # C12 — every client request resolves exactly once, whatever the server does
 
@@ -17,8 +18,96 @@ written: `writeRequest`'s error branch), `wlBodyFail` (its HEADERS went out, a D
 unanswered). In `H2.Client.Locks` the error branch of `writeRequest` is `wlWriteFail` → `wlFailRelease` →
 `wlFailDelete`: the lock is given back before `deletePending` asks for it. The serial model (the one
 compared step by step with the real `Conn` under `failwrite`) has `write_failure_*` below.
+
+A peer that is slow to read: `H2.Client.Queue` models the bounded control-frame queue `c.out`, its single
+reader (the write loop) and the request lock both loops take. `queue_never_wedges` / `frame_leaves_full_queue`:
+in the repaired code the write loop always gets back to its `select` without anybody needing room in the
+queue, so a full queue drains once the peer reads again; `F83_deadlock_before_fix`, `F84_deadlock_before_fix`:
+the code before the fixes reaches states in which nothing can move although the peer takes every octet.
+(What the real client does while the peer does not read at all is runtime behaviour judged by the
+monitors over the `clistall` family: results in time, Close returns, nobody left parked.)
 -/
 namespace H2.Props.C12
+
+/-! ## the control-frame queue and the request lock: a full queue drains (findings F83, F84, fixed) -/
+
+open H2.Client.Queue in
+/-- **queue_never_wedges** (repaired code, any queue capacity): from every reachable state the write
+loop gets back to its `select` in finitely many steps, none of which needs room in the control-frame
+queue (its length does not change on the way): neither loop ever waits for the queue in a position
+where the write loop, the queue's only reader, is held up -/
+theorem queue_never_wedges (cap : Nat) {s : S} (h : Reach (Cfg.fixed cap) s) :
+    ∃ s', Steps (Cfg.fixed cap) s s' ∧ s'.wl = .idle ∧ s'.q = s.q := by
+  have i := inv h
+  have j := inv_fixed h
+  cases hw : s.wl with
+  | idle => exact ⟨s, Steps.refl s, hw, rfl⟩
+  | sending =>
+    exact ⟨_, Steps.one (Step.wlSend s hw (i.wl.mpr hw)), rfl, rfl⟩
+  | queueRst => exact absurd hw j.2
+  | wantLock =>
+    -- whoever holds the request lets go of it; then `acquireFor`, the DATA frames, release
+    have fin : ∀ t, Reach (Cfg.fixed cap) t → t.holder = none → t.wl = .wantLock → t.q = s.q →
+        ∃ s', Steps (Cfg.fixed cap) t s' ∧ s'.wl = .idle ∧ s'.q = s.q := fun t _ hn hwl hq =>
+      ⟨_, Steps.tail (Steps.one (Step.wlAcquire t hwl hn)) (Step.wlSend _ rfl rfl), rfl, by simpa using hq⟩
+    cases hh : s.holder with
+    | none => exact fin s h hh hw rfl
+    | some a =>
+      cases a with
+      | wl => rw [i.wl.mp hh] at hw; cases hw
+      | rd =>
+        obtain ⟨t, st, hn, hwl, hq⟩ := rd_releases h hh
+        obtain ⟨s', st', r1, r2⟩ := fin t (h.steps st) hn (hwl.trans hw) hq
+        exact ⟨s', st.trans st', r1, r2⟩
+
+open H2.Client.Queue in
+/-- **frame_leaves_full_queue**: however full the queue is, once the peer takes octets again the next
+frame leaves it -/
+theorem frame_leaves_full_queue (cap : Nat) {s : S} (h : Reach (Cfg.fixed cap) s) (hq : 0 < s.q) :
+    ∃ s', Steps (Cfg.fixed cap) s s' ∧ s'.q = s.q - 1 := by
+  obtain ⟨t, st, hw, hq'⟩ := queue_never_wedges cap h
+  exact ⟨_, Steps.tail st (Step.wlTake t hw (by omega)), by simp [hq']⟩
+
+open H2.Client.Queue in
+/-- the hypotheses are satisfiable at the interesting point: the queue is full, the read loop holds the
+request of a DATA frame, the write loop asks for it — and still a frame leaves the queue -/
+example : ∃ s, Reach (Cfg.fixed 128) s ∧ s.q = 128 ∧ s.holder = some .rd ∧ s.wl = .wantLock ∧
+    ∃ s', Steps (Cfg.fixed 128) s s' ∧ s'.q = 127 := by
+  have r0 := reach_fill (Cfg.fixed 128) 128 (Nat.le_refl _)
+  have r1 := Reach.step r0 (Step.wlWindow _ rfl)
+  have r2 := Reach.step r1 (Step.rdAcquire _ rfl rfl)
+  exact ⟨_, r2, rfl, rfl, rfl, frame_leaves_full_queue 128 r2 (by decide)⟩
+
+open H2.Client.Queue in
+/-- **F83 (before the fix)**: the queue is full, the read loop is in `dispatch` on a DATA frame of a stream
+whose upload the write loop has just been woken for: the read loop waits for room in the queue with the
+request held, the write loop waits for the request. Nothing can move (the state the harness reproduces
+with known/F83.ops: `unstall quiet=0`) -/
+theorem F83_deadlock_before_fix (cap : Nat) :
+    ∃ s, Reach ⟨cap, true, false⟩ s ∧ s.q = cap ∧ Dead ⟨cap, true, false⟩ s := by
+  have r0 := reach_fill ⟨cap, true, false⟩ cap (Nat.le_refl _)
+  have r1 := Reach.step r0 (Step.wlWindow _ rfl)
+  have r2 := Reach.step r1 (Step.rdAcquire _ rfl rfl)
+  have r3 := Reach.step r2 (Step.rdDataOld _ rfl rfl)
+  refine ⟨_, r3, rfl, ?_⟩
+  intro s' st
+  cases st <;> simp_all
+
+open H2.Client.Queue in
+/-- **F84 (before the fix)**: the queue is full and the write loop, in `sendPending`, queues the RST_STREAM
+for a body whose reader failed: it waits for room in the queue only it can make; the read loop runs
+into the full queue with its next frame (known/F84.ops) -/
+theorem F84_deadlock_before_fix (cap : Nat) :
+    ∃ s, Reach ⟨cap, false, true⟩ s ∧ s.q = cap ∧ Dead ⟨cap, false, true⟩ s := by
+  have r0 := reach_fill ⟨cap, false, true⟩ cap (Nat.le_refl _)
+  have r1 := Reach.step r0 (Step.wlWindow _ rfl)
+  have r2 := Reach.step r1 (Step.wlAcquire _ rfl rfl)
+  have r3 := Reach.step r2 (Step.wlReadFailOld _ rfl rfl rfl)
+  have r4 := Reach.step r3 (Step.rdAcquire _ rfl rfl)
+  have r5 := Reach.step r4 (Step.rdDataNew _ rfl rfl rfl)
+  refine ⟨_, r5, rfl, ?_⟩
+  intro s' st
+  cases st <;> simp_all
 
 open H2.Client.Inter
 
